@@ -329,10 +329,21 @@ async def _body(env, p, fault, when):
     q = Function.task_reaper_q
     orig_get = q.get
 
+    waiting = [None]
+
     async def get():
+        # the reaper asks for its next command: it is done with the previous one.  If that one was for a task that had
+        # not started yet (since /repo ca978a8 the reaper waits for its first statement), the cancel is delivered now.
+        if waiting[0] is not None:
+            trace.append(("rp", waiting[0]))
+            waiting[0] = None
         cmd = await orig_get()
         if cmd and cmd[0] == "cancel":
-            trace.append(("rp", cmd[1]))
+            if cmd[1] not in phase and not cmd[1].done() and any(e[0] == "cr" and e[1] is cmd[1] for e in trace):
+                trace.append(("rw", cmd[1]))
+                waiting[0] = cmd[1]
+            else:
+                trace.append(("rp", cmd[1]))
         return cmd
     q.get = get
     q.put_nowait(["nop"])
@@ -615,6 +626,9 @@ def _canon(p, trace, records):
                 i += 1
         elif k == "ua":
             toks.append("ua!")
+        elif k == "rw":
+            ops.append(["rw", n(e[1])])
+            toks.append("r:wait")
         elif k == "rp":
             ops.append(["rp", n(e[1])])
             toks.append("r:ok")
